@@ -66,21 +66,35 @@ def validate (f : Front) (s : List Char) : Option (List Char) :=
     | _ => possibleMrs s
   if v = [] then none else some v
 
-/-- what `send` writes (without the newline it appends) -/
-def wire (v : List Char) : List Char := rstrip v
+/-- a line break as `send` understands it: the class `[\r\n]` of its `re.sub` -/
+def isBreak (c : Char) : Bool := c = '\n' || c = '\r'
+
+/-- `re.sub(r'[\r\n]+', ' ', ·)`: every maximal run of CR/LF becomes one blank (`inRun`: the previous character
+was part of a run that has already been replaced) -/
+def oneLineAux : Bool → List Char → List Char
+  | _, [] => []
+  | inRun, c :: cs =>
+    if isBreak c then (if inRun then oneLineAux true cs else ' ' :: oneLineAux true cs)
+    else c :: oneLineAux false cs
+
+def oneLine (s : List Char) : List Char := oneLineAux false s
+
+/-- what `send` writes (without the newline it appends): `re.sub(r'[\r\n]+', ' ', datum.rstrip())` (0806f59) -/
+def wire (v : List Char) : List Char := oneLine (rstrip v)
 
 /-! ## S-expressions (token level) -/
 
 inductive Tok
   | lp | rp | dot
-  | num (n : Nat)
+  | num (n : Int)        -- an integer, possibly negative (`-` directly followed by a digit)
   | txt (t : Nat)        -- a symbol or a complete quoted string (id of its text)
   | truncNum             -- digits running into the end of the text: `s[j]` raises IndexError
   | truncStr             -- unterminated string: IndexError
+  | bad                  -- a character no symbol can start with (`[`, `{`, `;`, a lone `\\` …): ValueError
 deriving DecidableEq, Repr
 
 inductive SVal
-  | num (n : Nat)
+  | num (n : Int)
   | txt (t : Nat)
   | dot
   | list (xs : List SVal)
@@ -93,11 +107,15 @@ inductive Err
   | unmodelled        -- shapes the generators never produce
 deriving DecidableEq, Repr
 
-/-- `_SExpr_parse` after the leading `(`: returns `data` and the remaining tokens. `none` = IndexError. -/
+/-- `_SExpr_parse` after the leading `(`: returns `data` and the remaining tokens. `none` = IndexError.
+`ValueError` (token `bad`: `_SExpr_parse_symbol` finds no symbol) makes `_sexpr_data` log and stop, which is also what
+it does with data that is not a pair: the model returns the non-pair `.dot` with nothing left, so that `sexprData`
+stops there. -/
 def sxLoop : List Tok → List (List SVal) → List SVal → SVal → Option (SVal × List Tok)
   | [], _, _, data => some (data, [])
   | .truncNum :: _, _, _, _ => none
   | .truncStr :: _, _, _, _ => none
+  | .bad :: _, _, _, _ => some (.dot, [])
   | .num n :: ts, st, vals, data => sxLoop ts st (vals ++ [.num n]) data
   | .txt t :: ts, st, vals, data => sxLoop ts st (vals ++ [.txt t]) data
   | .dot :: ts, st, vals, data => sxLoop ts st (vals ++ [.dot]) data
@@ -129,6 +147,7 @@ theorem sxLoop_rest_le : ∀ (ts : List Tok) st vals data d r,
     | txt n => simp only [sxLoop] at h; have := ih _ _ _ _ _ h; simp; omega
     | truncNum => simp [sxLoop] at h
     | truncStr => simp [sxLoop] at h
+    | bad => simp only [sxLoop, Option.some.injEq, Prod.mk.injEq] at h; simp [h.2.symm]
 
 /-- text ids the code itself knows -/
 def tIncomplete : Nat := 0   -- 'incomplete output from ACE'
@@ -138,6 +157,7 @@ def kPTokens : Nat := 3      -- ':p-tokens'
 def kResults : Nat := 4      -- ':results'
 def kChart : Nat := 5        -- ':chart'
 def kSurface : Nat := 6      -- ':surface'
+def tRefusal : Nat := 7      -- 'PyDelphin could not validate the input and refused to send it to ACE'
 
 /-- `_sexpr_data`: the (key, value) pairs yielded before the loop stops (it stops, with a logged error,
 at text that does not start with `(`, at data that is not a pair, at a key that is not a string) -/
@@ -286,6 +306,28 @@ structure St where
   runs : List Run
   orc : List Bool
 deriving Repr
+
+/-- Python's comparison `a >= b` of two version tuples (lexicographic; a proper prefix is smaller) -/
+def verGe : List Nat → List Nat → Bool
+  | _, [] => true
+  | [], _ :: _ => false
+  | x :: xs, y :: ys => if x = y then verGe xs ys else decide (x > y)
+
+/-- `ACEProcess.__init__`: `self.receive = self._tsdb_receive` iff `tsdbinfo and ace_version >= (0, 9, 24)` —
+the protocol IN EFFECT (`Cfg.tsdb`), not the option that was requested; `version` is what the binary's `-V`
+answer parses to (`(0, 9, 0)` when it does not parse) -/
+def protocolInEffect (tsdbinfo : Bool) (version : List Nat) : Bool := tsdbinfo && verGe version [0, 9, 24]
+
+/-- the command line of every `_open` (first start and every restart alike):
+`[executable, '-g', grm] + self._cmdargs + self.cmdargs`, where `__init__` has appended `--tsdb-notes` to the
+caller's options from version 0.9.14 on and `--tsdb-stdout --report-labels` when the tsdb protocol is in effect
+(the transferer passes `tsdbinfo=False` whatever it is given) -/
+def cmdline (f : Front) (tsdbinfo : Bool) (version : List Nat) (user : List String) : List String :=
+  ["-g", "fake.dat"]
+    ++ (match f with | .generator => ["-e", "--tsdb-notes"] | _ => [])
+    ++ user
+    ++ (if verGe version [0, 9, 14] then ["--tsdb-notes"] else [])
+    ++ (if protocolInEffect (tsdbinfo && f != .transferer) version then ["--tsdb-stdout", "--report-labels"] else [])
 
 def termini (c : Cfg) : List Terminus :=
   match c.front, c.tsdb with
@@ -448,6 +490,13 @@ inductive Results
   | tsdb (t : Tsdb)
 deriving Repr
 
+/-- the `surface` entry of a response: the text after `SENT: ` / `SKIP: ` of a line the processor wrote (id of
+the text), or — in the response `interact` fabricates for a refused input — the input text itself -/
+inductive Surf
+  | id (t : Nat)
+  | input (s : List Char)
+deriving DecidableEq, Repr
+
 structure Resp where
   input : List Char
   skipped : Bool := false
@@ -455,7 +504,7 @@ structure Resp where
   notes : List Nat := []
   warnings : List Nat := []
   errors : List Nat := []
-  surface : Option Nat := none
+  surface : Option Surf := none
   results : Results := .lines []
   -- ghost
   src : List (Option Nat) := []     -- owners of every line read for this response
@@ -479,7 +528,7 @@ def baseResp (inp : List Char) (run : Nat) (lines allLines : List Line) (eof : B
     notes := (lines.filter (·.cls == .note)).map (·.payload),
     warnings := (lines.filter (·.cls == .warning)).map (·.payload),
     errors := (lines.filter (·.cls == .error)).map (·.payload),
-    surface := ((lines.filter (·.cls == .surface)).map (·.payload)).getLast?,
+    surface := (((lines.filter (·.cls == .surface)).map (·.payload)).getLast?).map Surf.id,
     src := allLines.map (·.owner), srcNl := allLines.map (·.nl), eof := eof }
 
 /-- the front end's interpretation of the content lines -/
@@ -507,7 +556,7 @@ def fixSurface (r : Resp) : Resp :=
   | .tsdb t =>
     match t.extra.lookup kSurface with
     | some (.txt v) =>
-      { r with surface := some v, results := .tsdb { t with extra := t.extra.filter (fun kv => kv.1 != kSurface) } }
+      { r with surface := some (.id v), results := .tsdb { t with extra := t.extra.filter (fun kv => kv.1 != kSurface) } }
     | _ => r
   | _ => r
 
@@ -521,10 +570,22 @@ def receive (c : Cfg) (inp : List Char) (s : St) : St × Except Err Resp :=
     | .error e => (afterRead c s1, .error e)
     | .ok rs => (afterRead c s1, .ok (fixSurface { base with results := rs }))
 
+/-- the response `interact` fabricates for an input it refuses: `_make_response` on the two lines
+`NOTE: PyDelphin could not validate the input and refused to send it to ACE` and `SKIP: <datum>` with the
+current run record — one note, the input as surface, no results -/
+def skipResp (inp : List Char) (run : Nat) : Resp :=
+  { input := inp, skipped := true, run := run, notes := [tRefusal], surface := some (.input inp) }
+
+/-- `task` of the three front ends (what `process_item` stores under `task`) -/
+def taskOf : Front → String
+  | .parser => "parse"
+  | .transferer => "transfer"
+  | .generator => "generate"
+
 /-- `interact(datum)` for input number `i` -/
 def interact (c : Cfg) (i : Nat) (it : Item) (s : St) : St × Except Err Resp :=
   match validate c.front it.text with
-  | none => (s, .ok { input := it.text, skipped := true, run := curRun s })
+  | none => (s, .ok (skipResp it.text (curRun s)))
   | some v =>
     match send c i it s with
     | .error e => (s, .error e)
